@@ -930,6 +930,42 @@ def check_tables(ctx):
 # run
 # ----------------------------------------------------------------------------------------------------
 
+def guarded(ctx, fn, case, seconds=90):
+    """wall-clock guard of one case: a hang is an infrastructure event, never a violation"""
+    from harness.core import time_limit, CaseTimeout
+    try:
+        with time_limit(seconds):
+            return fn(ctx, case)
+    except CaseTimeout:
+        ctx.notes.append(f"case timed out (infrastructure): {case.get('kind')} {case.get('fam')} N={case.get('N')}")
+        ctx.count("timeouts")
+        return True
+
+
+def malformed_stream(ctx, fam, rng):
+    """inputs outside the property's domain: the outcome is recorded, never judged (except that nothing may hang)"""
+    import yastn
+    import yastn.tn.mps as mps
+    charged = [nm for nm in fam.names if fam.table[nm][2] != fam.zero()]
+    N = 3
+    I = mps.product_mpo(fam.table["I"][0], N)
+    streams = []
+    if charged:
+        nm = rng.choice(charged)
+        streams.append(("charge-mismatch", [mps.Hterm(1.0, (0,), (fam.table[nm][0],)), mps.Hterm(1.0, (1,), (fam.table["I"][0],))]))
+    streams.append(("count-mismatch", [mps.Hterm(1.0, (0, 1), (fam.table["I"][0],))]))
+    streams.append(("negative-site", [mps.Hterm(1.0, (-1,), (fam.table["I"][0],))]))
+    for tag, terms in streams:
+        try:
+            mps.generate_mpo(I, terms)
+            out = "accepted"
+        except yastn.YastnError:
+            out = "YastnError"
+        except Exception as e:  # noqa: BLE001
+            out = type(e).__name__
+        ctx.count(f"mpo:malformed:{tag}:{out}")
+
+
 def gen_mpo_case(fam, rng, quick, stratum):
     N = pick_N(fam, rng, quick)
     terms = gen_term_list(fam, N, rng, zero_stratum=(stratum == "zero-onsite"), complex_stratum=(stratum == "complex-ops"))
@@ -1004,7 +1040,8 @@ def run(ctx):
                 # the reversed bond keeps the operator order, so the total charge is unchanged
                 pass
             ctx.case(case)
-            check_latex_case(ctx, case)
+            guarded(ctx, check_latex_case, case)
+        malformed_stream(ctx, fam, rng)
 
     # ---------------- measurements ------------------------------------------------------------------
     for fam in fams:
@@ -1018,14 +1055,14 @@ def run(ctx):
             case = {"kind": "measure", "which": "1site", "fam": fam.key, "N": N, "names": [nm], "seed": rng.randrange(2 ** 40),
                     "cplx": rng.random() < 0.3}
             ctx.case(case)
-            check_measure_case(ctx, case)
+            guarded(ctx, check_measure_case, case)
             # 2-site: every pattern
             for _2 in range(2 if quick else 3):
                 names = [rng.choice(charged) if charged and rng.random() < 0.7 else rng.choice(pool) for _ in range(2)]
                 case = {"kind": "measure", "which": "2site", "fam": fam.key, "N": N, "names": names, "seed": rng.randrange(2 ** 40),
                         "patterns": list(PATTERNS), "cplx": rng.random() < 0.3}
                 ctx.case(case)
-                check_measure_case(ctx, case)
+                guarded(ctx, check_measure_case, case)
             # n-site
             for _n in range(3 if quick else 8):
                 k = rng.choice([1, 2, 3, 3, 4])
@@ -1036,7 +1073,7 @@ def run(ctx):
                 case = {"kind": "measure", "which": "nsite", "fam": fam.key, "N": N, "names": names, "sites": sites,
                         "seed": rng.randrange(2 ** 40), "cplx": rng.random() < 0.3}
                 ctx.case(case)
-                check_measure_case(ctx, case)
+                guarded(ctx, check_measure_case, case)
             # rdm
             kmax = 3 if fam.d == 2 else 2
             k = rng.randint(1, min(kmax, N))
@@ -1044,12 +1081,12 @@ def run(ctx):
             k = min(k, Nr)
             case = {"kind": "rdm", "fam": fam.key, "N": Nr, "sites": rng.sample(range(Nr), k), "seed": rng.randrange(2 ** 40)}
             ctx.case(case)
-            check_rdm_case(ctx, case)
+            guarded(ctx, check_rdm_case, case)
             # sample
             case = {"kind": "sample", "fam": fam.key, "N": N, "mode": rng.choice(["vector", "matrix", "sector"]),
                     "seed": rng.randrange(2 ** 40), "cplx": rng.random() < 0.3}
             ctx.case(case)
-            check_sample_case(ctx, case)
+            guarded(ctx, check_sample_case, case)
     ctx.extra["run_wall_s"] = round(time.time() - t_start, 1)
 
 
